@@ -81,4 +81,5 @@ def main(tier):
     chk.run("R-POWCAP", BR.powcap, cx.repo, floor=8)
     chk.run("R-BOUNDORDER", BR.boundorder, cx.repo, floor=2)
     chk.run("R-ALIASATTR", SY.aliasattr, cx.repo, clauses=("attribute_clauses", "anonymous_own"), floor=3)
+    chk.run("R-EXTINT", BR.extint, cx.repo, floor=2)
     return chk.finish()
